@@ -45,9 +45,14 @@ def h_asarray(n: int, c: int, k1: int, k2: int, k3: int, probe: int, form='ndarr
     ename, elabel = expected_dtype(numtype, bo, dtypearg)
     if form == 'ndarray':
         x = np.ndarray(in_dt, (n,) + atom, Seq.of(src, n), order=layout)
-        if layout == 'strided':
-            x.flags.c_contiguous = False
-            x.flags.f_contiguous = False
+        if layout in ('strided', 'F') and atom and symnp._prod(atom) > 1:
+            x.flags.c_contiguous = (n <= 1)          # NumPy: a single row is contiguous either way
+            x.flags.f_contiguous = (n <= 1) or layout == 'F'
+        elif layout == 'strided':
+            x.flags.c_contiguous = (n <= 1)
+            x.flags.f_contiguous = (n <= 1)
+        elif atom and symnp._prod(atom) == 1:
+            x.flags.c_contiguous = x.flags.f_contiguous = True
         ref = Seq.of(src if ename == numtype else ('cast', ename, src), n)
         total = n
     elif form == 'list':
@@ -78,7 +83,11 @@ def h_asarray(n: int, c: int, k1: int, k2: int, k3: int, probe: int, form='ndarr
         assume(n == 0)
         # chunks of alternating dtypes: all are cast to the FIRST chunk's dtype (or to dtype=)
         dts = [numtype, 'float64' if numtype != 'float64' else 'int32', numtype]
-        chunks = [np.ndarray(dt_of(dts[i], bo if i != 1 else 'little'), (ks[i],) + atom,
+        obo = 'big' if bo == 'little' else 'little'
+        bos = [bo, 'little', obo]       # third chunk: same numeric type, OPPOSITE byte order
+        if m == 2:
+            dts, bos = [numtype, numtype], [bo, obo]
+        chunks = [np.ndarray(dt_of(dts[i], bos[i]), (ks[i],) + atom,
                              Seq.of(('in', i + 1), ks[i])) for i in range(m)]
         x = iter(chunks)
         ename, elabel = expected_dtype(numtype, bo, dtypearg)
@@ -105,8 +114,8 @@ def h_asarray(n: int, c: int, k1: int, k2: int, k3: int, probe: int, form='ndarr
         js = w.lookup('/w/a/arraydescription.json').text.obj
     except Exception:
         raise Violation('descriptor unreadable')
-    if js.get('arrayorder') != 'C' or js.get('darrobject') != 'Array':
-        raise Violation('descriptor arrayorder/darrobject wrong', got=js)
+    if js.get('darrobject') != 'Array':
+        raise Violation('descriptor darrobject wrong', got=js)
     reach('end')
 
 
@@ -229,7 +238,7 @@ def replay_create(cex, d):
         return {'reproduced': True, 'detail': str(cex)}
     n = int(fx.get('n', 0))
     if n > 5000:
-        return {'reproduced': False, 'detail': 'too large'}
+        return {'reproduced': False, 'skip': True, 'detail': 'too large'}
     atom = tuple(fx.get('atom', ()))
     probs = []
     with rp.scratch() as tmp:
@@ -293,7 +302,11 @@ def replay_create(cex, d):
                     m = int(fx['m'])
                     ks = [int(fx[f'k{i + 1}']) for i in range(m)]
                     dts = [nt, 'float64' if nt != 'float64' else 'int32', nt]
-                    chunks = [rp.values(np_, ks[i], atom, dts[i], bo if i != 1 else 'little', 100 * (i + 1)) for i in range(m)]
+                    obo = 'big' if bo == 'little' else 'little'
+                    bos = [bo, 'little', obo]
+                    if m == 2:
+                        dts, bos = [nt, nt], [bo, obo]
+                    chunks = [rp.values(np_, ks[i], atom, dts[i], bos[i], 100 * (i + 1)) for i in range(m)]
                     x = iter(chunks)
                     first = np_.asarray(chunks[0], dtype=da)
                     ref = np_.concatenate([np_.asarray(ch, dtype=da).astype(first.dtype) for ch in chunks], axis=0)
@@ -323,8 +336,10 @@ def _cmp(darr, np_, p, a, ref, probs):
     js = json.load(open(p + '/arraydescription.json'))
     dt = np_.dtype(js['numtype']).newbyteorder('<' if js['byteorder'] == 'little' else '>')
     raw = np_.fromfile(p + '/arrayvalues.bin', dtype=dt)
-    if raw.size != ref.size or raw.reshape(js['shape']).astype(ref.dtype.newbyteorder('=')).tobytes() != \
-            np_.ascontiguousarray(ref).astype(ref.dtype.newbyteorder('=')).tobytes() or js['arrayorder'] != 'C':
+    if js['arrayorder'] not in ('C', 'F') or raw.size != ref.size or \
+            np_.ascontiguousarray(raw.reshape(js['shape'], order=js['arrayorder'])).astype(
+                ref.dtype.newbyteorder('=')).tobytes() != \
+            np_.ascontiguousarray(ref).astype(ref.dtype.newbyteorder('=')).tobytes():
         probs.append('independent decoding of the files differs from the reference')
     if dt.itemsize > 1 and dt.str != ref.dtype.str and ref.dtype.str[0] != '|':
         probs.append(f'descriptor says {dt.str}, reference is {ref.dtype.str}')
@@ -344,7 +359,7 @@ def obligations(tier):
     O1 = []
     for i, (nt, bo, at) in enumerate(cfgs):
         for da in ((None, 'float32', 'int16', nt) if thorough else (None, ('float32' if i % 2 else nt))):
-            for lay in (('C', 'F', 'strided') if (thorough and at) else ('C',) if i % 2 else ('F' if len(at) > 0 else 'strided',)):
+            for lay in (('C', 'F', 'strided') if ((thorough or i in (1, 3)) and at) else ('C',) if i % 2 else (('F', 'strided') if len(at) > 0 else ('strided',))):
                 for ucl in (True, False):
                     O1.append(dict(form='ndarray', numtype=nt, bo=bo, atom=at, dtypearg=da, layout=lay,
                                    usechunklen=ucl, F=F))
